@@ -9,6 +9,11 @@ From Iodine Require Import Generated.SrcConsts Base Server.
 Import ListNotations.
 Local Open Scope N_scope.
 
+(* lia's preprocessing touches every hypothesis, which would make each lemma of a section depend on
+   the oracle variables (login, zc, unz) of that section; clear the unused ones first *)
+Ltac clear_oracles := repeat match goal with f : list N -> _ |- _ => clear f end.
+Ltac lia := clear_oracles; Lia.lia.
+
 (* a query instance: (address incl. port, DNS id, question name, question type) *)
 Definition inst : Type := (addr * N * list N * N)%type.
 
